@@ -252,11 +252,15 @@ struct PGMIndex<K, Epsilon, EpsilonRecursive, Floating>::Segment {
      * @return the approximate position of the specified key
      */
     inline size_t operator()(const K &k) const {
-        size_t pos;
+        double p;
         if constexpr (std::is_same_v<K, int64_t> || std::is_same_v<K, int32_t>)
-            pos = size_t(slope * double(std::make_unsigned_t<K>(k) - key));
+            p = slope * double(std::make_unsigned_t<K>(k) - key);
         else
-            pos = size_t(slope * double(k - key));
+            p = slope * double(k - key);
+        // For a key far beyond the keys covered by this segment p can exceed the range of size_t, and converting such a
+        // value is undefined: saturate it at the largest intercept, which no position exceeds.
+        constexpr double max_pos = std::numeric_limits<decltype(intercept)>::max();
+        size_t pos = p < max_pos ? size_t(p) : size_t(max_pos);
         return pos + intercept;
     }
 };
